@@ -481,16 +481,48 @@ PROPS["C06"] = {
 }
 
 PROPS["C07"] = {
-    "lean_modules": ["Stef.Props.C07"],
+    "lean_modules": ["Stef.Props.C07", "Stef.Props.C07IO", "Stef.Props.C07IOBig"],
     "harness": [{"bin": "h_codec", "args": ["chunking"]}],
-    "rule": ("cases = valid streams read through iotest.OneByteReader, random short reads, DataErrReader vs a whole-buffer read; "
-             "outcomes (record dumps or error class) must be identical; non-trivial = a short read inside the header; distinct by "
-             "(stream, schedule)"),
-    "trusted_base": CODEC_TB + ["Stef/Reader.lean with the regenerated read call-site table (io.ReadFull vs bare Read)",
-                                "bufio.Reader / io.ReadFull / binary.ReadUvarint have full-read semantics (library, trusted)"],
-    "assumptions": [],
-    "level_text": ("Theorems: chunking_independent (any two schedules give the same header result, records and error when every "
-                   "call site has full-read semantics), chunking_independent_frames (holds on the current table for the frame part)."),
+    "rule": ("cases = valid streams (random histories; streams whose last column is larger than bufio's buffer) read through "
+             "iotest.OneByteReader, HalfReader, DataErrReader, random short reads, sources that return io.EOF together with the "
+             "last bytes (whole / 64 KiB / 5000-byte reads), sources that return 0,nil up to 3 (and once 99) times in a row, "
+             "sources that end with a non-EOF error (with or after the last byte), and the same streams CUT at random offsets, "
+             "vs a whole-buffer read; outcomes (record dumps or error class) must be identical. Every run over an uncompressed "
+             "stream (all small streams, a sample of the large ones; zstd is skipped with a stat) is replayed on the Lean model "
+             "of the read path (`rio` ops): the Read calls the real reader made on the source are logged by a recorder and the "
+             "model, given the stream and the behaviour of every call, must predict the same sequence of requests len(p) and "
+             "the same outcome. Tie-only cases (no property): 100 empty reads in a row (io.ErrNoProgress), a malformed last "
+             "frame whose size table overruns the frame. non-trivial = a short read inside the header; distinct by (stream, schedule)"),
+    "trusted_base": CODEC_TB + [
+        "Stef/Reader.lean with the regenerated read call-site table (io.ReadFull vs bare Read) for the C07/C05/C06 theorems over read SIZES",
+        "Stef/ReaderIO.lean: the Go standard library functions on the read path are MODELLED code, transcribed from go1.25 "
+        "(io.ReadAtLeast / io.ReadFull, binary.ReadUvarint, bufio.Reader.fill / Read / ReadByte / readErr with the 100-empty-reads "
+        "limit, the large-read bypass and the stored error), together with limitedReader, FrameDecoder (CompressionNone), "
+        "BaseReader, ReadBufs.ReadFrom / ReadDataFrom and the generated Read loop; hand transcriptions tied call for call by the "
+        "`rio` correspondence (request sequence on the source + outcome), not trusted library behaviour any more",
+        "the reader's column tree shape and the size of its bufio.Reader are read from the real reader by reflection (harness) "
+        "and are parameters of the model; the theorems hold for every tree and every buffer size above 4096",
+        "zstd streams: the decompressor between FrameDecoder and the source is not modelled (differential runs only)",
+    ],
+    "assumptions": ["sources keep the io.Reader contract in the form: fewer than 100 consecutive `0, nil` results (bufio.Reader "
+                    "reports io.ErrNoProgress at 100; that branch is modelled and tied, and excluded by the hypothesis `Contract`)"],
+    "level_text": ("Theorems (Props/C07): chunking_independent, chunking_independent_frames, chunking_independent_current over schedules "
+                   "of read SIZES with trusted full-read semantics. Theorems (Props/C07IO) over the whole io.Reader contract, library "
+                   "code modelled: readFull_spec (io.ReadFull over ANY behaviour schedule - 0,nil results, short reads, error with or "
+                   "after the last byte, io.EOF or another error - returns exactly the next n bytes or the documented short result), "
+                   "bufio_read_spec / bufio_reads_in_order / bufio_readByte_spec / bufio_readFull_spec (what bufio delivers is the "
+                   "source's bytes in order, nothing lost, an error only after the last byte and together with bytes only through the "
+                   "large-read bypass), frameDecoder_read_passthrough (FrameDecoder.Read returns every byte its underlying read "
+                   "returned, with or without an error, and accounts for exactly those), frameDecoder_readFull_spec, "
+                   "chunking_independent_io (EVERY data, terminal error, column tree, buffer size > 4096 and every two contract-abiding "
+                   "schedules: same constructor result, same records, same frames handed to the decoders, same final error unless both "
+                   "runs ended in an io.ReadFull that overran a malformed frame), chunking_independent_io_partial / _reader (exact "
+                   "equality under the explicit no-overrun hypothesis), unconditional_statement_false (the unconditional statement is "
+                   "FALSE as the code is written: ReadBufs.ReadFrom takes its limit before reading the size-table size, a malformed last "
+                   "frame ends in `end of frame` or io.ErrUnexpectedEOF depending on the source; confirmed on the real code by the "
+                   "overrun tie cases; outside C07's quantifier, which ranges over valid streams). Non-vacuity: one stream under "
+                   "one-byte reads, one eager full read, lazy reads, 0,nil-interleaved reads; a failing source; a cut stream; the bypass "
+                   "with eager EOF at buffer size 4100 and (Props/C07IOBig) at the real 64 KiB."),
 }
 
 PROPS["C08"]["harness"].append({"bin": "h_codec", "args": ["limits"]})
